@@ -78,6 +78,8 @@ pub(crate) fn syscommand_runner(
 )
 {
     let idx = **world.resource::<SyscommandCounter>();
+    #[cfg(feature = "verif_hooks")]
+    crate::verif::emit(crate::verif::RunnerEvent::Applied, *command);
 
     // cleanup
     garbage_collect_entities(world);
@@ -88,6 +90,8 @@ pub(crate) fn syscommand_runner(
     let Ok(mut entity_mut) = world.get_entity_mut(*command)
     else
     {
+        #[cfg(feature = "verif_hooks")]
+        crate::verif::emit(crate::verif::RunnerEvent::AbortNoEntity, *command);
         cleanup_on_abort(world, setup, cleanup);
         return
     };
@@ -95,6 +99,8 @@ pub(crate) fn syscommand_runner(
     else
     {
         tracing::error!(?command, "system command component is missing on extract");
+        #[cfg(feature = "verif_hooks")]
+        crate::verif::emit(crate::verif::RunnerEvent::AbortNoStorage, *command);
         cleanup_on_abort(world, setup, cleanup);
         return
     };
@@ -104,9 +110,13 @@ pub(crate) fn syscommand_runner(
         // Cache the callback unless at the bottom of the pile.
         if idx == 0 {
             tracing::warn!(?command, "system command missing");
+            #[cfg(feature = "verif_hooks")]
+            crate::verif::emit(crate::verif::RunnerEvent::AbortMissingAtRoot, *command);
             cleanup_on_abort(world, setup, cleanup);
         } else {
             tracing::debug!(?command, "deferring suspected recursive system command");
+            #[cfg(feature = "verif_hooks")]
+            crate::verif::emit(crate::verif::RunnerEvent::Postponed, *command);
             world.resource_mut::<CobwebCommandQueue<BufferedSyscommand>>().push(
                 BufferedSyscommand{ command, setup, cleanup }
             );
@@ -118,7 +128,11 @@ pub(crate) fn syscommand_runner(
     // run the system command
     **world.resource_mut::<SyscommandCounter>() += 1;
     setup.run(world);
+    #[cfg(feature = "verif_hooks")]
+    crate::verif::emit(crate::verif::RunnerEvent::Enter, *command);
     callback.run(world, cleanup);
+    #[cfg(feature = "verif_hooks")]
+    crate::verif::emit(crate::verif::RunnerEvent::Exit, *command);
 
     // cleanup
     // - We do this before reinserting the callback in case the callback garbage collected itself.
@@ -130,9 +144,13 @@ pub(crate) fn syscommand_runner(
         if let Some(mut system_command) = entity_mut.get_mut::<SystemCommandStorage>()
         {
             system_command.insert(callback);
+            #[cfg(feature = "verif_hooks")]
+            crate::verif::emit(crate::verif::RunnerEvent::Reinserted, *command);
         }
         else
         {
+            #[cfg(feature = "verif_hooks")]
+            crate::verif::emit(crate::verif::RunnerEvent::Dropped, *command);
             std::mem::drop(callback);
             entity_mut.despawn_recursive();
             tracing::error!(?command, "system command component is missing on insert");
@@ -143,6 +161,8 @@ pub(crate) fn syscommand_runner(
     }
     else
     {
+        #[cfg(feature = "verif_hooks")]
+        crate::verif::emit(crate::verif::RunnerEvent::Dropped, *command);
         std::mem::drop(callback);
 
         // In case dropping the callback caused entities to be garbage collected.
@@ -163,6 +183,8 @@ pub(crate) fn syscommand_runner(
                 if buffered.command == command
                 {
                     tracing::debug!(?command, "running reordered recursive system command");
+                    #[cfg(feature = "verif_hooks")]
+                    crate::verif::emit(crate::verif::RunnerEvent::Replay, *command);
                     syscommand_runner(world, buffered.command, buffered.setup, buffered.cleanup);
                     return false;
                 }
@@ -177,12 +199,16 @@ pub(crate) fn syscommand_runner(
     {
         while let Some(to_discard) = world.resource_mut::<CobwebCommandQueue<BufferedSyscommand>>().pop_front() {
             tracing::warn!(?to_discard.command, "failed to run missing system command");
+            #[cfg(feature = "verif_hooks")]
+            crate::verif::emit(crate::verif::RunnerEvent::Discard, *to_discard.command);
             cleanup_on_abort(world, to_discard.setup, to_discard.cleanup);
         }
 
         // Reset the counter since we are exiting the system command tree.
         **world.resource_mut::<SyscommandCounter>() = 0;
     }
+    #[cfg(feature = "verif_hooks")]
+    crate::verif::emit(crate::verif::RunnerEvent::Return, *command);
 }
 
 //-------------------------------------------------------------------------------------------------------------------
